@@ -96,6 +96,31 @@ def foldOp (form : Form) (f : Nat → Bool) (xs : List Id) : List Ev × Bool :=
 def cloneOp (f : Nat → Option Id) (xs : List Id) : List Ev × Res := mapOp .ref f xs
 def defaultOp (f : Nat → Option Id) (n : Nat) : List Ev × Res := generate f n
 
+/-- result of `a.clone_from(&b)`: the events inside the call, whether it returned, what `a` holds afterwards -/
+structure CloneFrom where
+  ev : List Ev
+  res : Res
+  final : List Id
+deriving Repr, DecidableEq
+
+/-- `a.clone_from(&b)` for `Clone for GenericArray`, which (regenerated flag `cloneFromIsDefault`) does not
+    override it: the trait's `*self = source.clone()`.  The clone is built first (`T::clone` may panic at any
+    call: the clones made so far are released and `a` is untouched).  Then the old contents are dropped in place
+    — one drop of the whole array, every destructor runs even if the one of `bad` panics — and the new value is
+    written to `a`, on the unwinding path too (Rust's drop-and-replace).  With an override the model does not
+    know what runs: `none`. -/
+def cloneFromOp (f : Nat → Option Id) (old xs : List Id) (bad : Option Id) : Option CloneFrom :=
+  if Lib.cloneFromIsDefault then
+    let r := cloneOp f xs
+    match r.2 with
+    | .ok ids =>
+      some ⟨r.1 ++ old.map .drop,
+            (match bad with
+             | some b => if old.contains b then .panicked else .ok []
+             | none => .ok []), ids⟩
+    | res => some ⟨r.1, res, old⟩
+  else none
+
 /-- `from_iter` / `try_from_iter` (stack or boxed) from a scripted user iterator -/
 def collectOp (boxed try_ : Bool) (n : Nat) (hint : Nat × Option Nat) (sc : Script) : List Ev × Res :=
   if try_ then tryFromIter (collectFrags boxed) scriptSrc n hint sc
